@@ -19,11 +19,12 @@ def demo_plan(prop, k):
     cmd = meta["how_to_run_demo"]
     wt = f"/tmp/seed-{prop}"
     m = re.search(r"cp\s+(\S+)\s+(\S+)", cmd)
-    src, dst = m.group(1), m.group(2)
+    src, dst = m.group(1), m.group(2).rstrip(";")
     src = os.path.join(d, os.path.basename(src))
     if not dst.startswith("/"):
         dst = os.path.join(wt, dst)
-    t = re.search(r"(go test[^#;&\n]*)", cmd).group(1).strip()
+    t = re.search(r"(go test[^#;&\n]*)", cmd).group(1)
+    t = re.split(r"\s{2,}\(", t)[0].strip()      # drop a trailing "   (package …)" remark
     # directory of the go test command: the last `cd X` before it, else the worktree
     pre = cmd[:cmd.index(t)]
     cds = [c.rstrip(";") for c in re.findall(r"cd\s+(\S+)", pre)]
